@@ -117,6 +117,7 @@ func (s *Store) persist(higher Snapshot, persistOptions StorePersistOptions) (
 		return s.Snapshot()
 	}
 
+	verifAt("store.persist.begin", s)
 	fref, file, err := s.startOrReuseFile()
 	if err != nil {
 		return nil, err
@@ -139,6 +140,7 @@ func (s *Store) persist(higher Snapshot, persistOptions StorePersistOptions) (
 		return nil, err
 	}
 
+	verifAt("store.persist.segments", s)
 	// Recursively load all segments of the newly persisted footer.
 	err = footer.loadSegments(s.options, fref)
 	if err != nil {
@@ -152,6 +154,7 @@ func (s *Store) persist(higher Snapshot, persistOptions StorePersistOptions) (
 		return nil, err
 	}
 
+	verifAt("store.persist.footer", s)
 	footer.AddRef() // One ref-count will be held by the store.
 
 	s.m.Lock()
@@ -160,6 +163,7 @@ func (s *Store) persist(higher Snapshot, persistOptions StorePersistOptions) (
 	s.totPersists++
 	s.m.Unlock()
 
+	verifAt("store.persist.end", s)
 	s.histograms["PersistUsecs"].Add(
 		uint64(time.Since(startTime).Nanoseconds()/1000), 1)
 
@@ -279,6 +283,7 @@ func (s *Store) startFileLOCKED() (*FileRef, File, error) {
 	if err = s.persistHeader(file); err != nil {
 		file.Close()
 
+		verifOnRemove(path.Join(s.dir, fname))
 		os.Remove(path.Join(s.dir, fname))
 
 		return nil, nil, err
@@ -321,6 +326,7 @@ func (s *Store) removeFileOnClose(fref *FileRef) (os.FileInfo, error) {
 				s.m.Lock()
 				delete(s.fileRefMap, fileName)
 				s.m.Unlock()
+				verifOnRemove(path.Join(s.dir, fileName))
 				err := os.Remove(path.Join(s.dir, fileName))
 				if err != nil {
 					if s.options.CollectionOptions.Log != nil {
@@ -746,6 +752,7 @@ func restoreCollection(co *CollectionOptions, storeFooter *Footer) (
 
 func removeFiles(dir string, fnames []string) error {
 	for _, fname := range fnames {
+		verifOnRemove(path.Join(dir, fname))
 		err := os.Remove(path.Join(dir, fname))
 		if err != nil {
 			return err
